@@ -1856,3 +1856,249 @@ Proof.
   destruct (conforms_P r s teq m Hg Hsk Hsc id ts rest Hc) as [_ K].
   destruct (K Hh Hn) as (_ & _ & Kf). apply Kf. pose proof (cw_le1 r id). lia.
 Qed.
+
+(** * L. the model never prints the empty string literal *)
+Definition noE (v : tokens) : bool := forallb (fun t => negb (String.eqb t empty_str_lit)) v.
+
+(** no literal path contains the token [""] (path tokens are identifiers and punctuation in practice) *)
+Definition literal_paths_plainb (r : registry) (s : settings) : bool :=
+  forallb (fun i => match path_omit_generics r s i with Ok p => noE p | _ => true end) (ids_of r).
+
+Lemma noE_app a b : noE (a ++ b) = noE a && noE b.
+Proof. apply forallb_app. Qed.
+
+Lemma noE_In v : noE v = true -> ~ In empty_str_lit v.
+Proof.
+  unfold noE. intros H Hi. rewrite forallb_forall in H. specialize (H _ Hi).
+  rewrite String.eqb_refl in H. discriminate H.
+Qed.
+
+Lemma noE_concat : forall l, Forall (fun v => noE v = true) l -> noE (List.concat l) = true.
+Proof.
+  induction 1 as [|v l Hv _ IH]; [reflexivity|]. cbn [List.concat]. rewrite noE_app, Hv, IH. reflexivity.
+Qed.
+
+Lemma lit_ne_E d suf x y z : suf = String x (String y z) -> (x <> """"%char \/ z <> "") ->
+  String.eqb (d ++ suf)%string empty_str_lit = false.
+Proof.
+  intros -> Hx. apply String.eqb_neq. intros H. unfold empty_str_lit, quote_with in H. cbn in H.
+  destruct d as [|a [|b d]]; cbn in H; inversion H; subst.
+  - destruct Hx as [Hx|Hx]; congruence.
+  - destruct d; discriminate.
+Qed.
+
+Lemma ident_ne_E x : ident_lexb x = true -> String.eqb x empty_str_lit = false.
+Proof. intros H. apply String.eqb_neq. intros ->. discriminate H. Qed.
+
+Lemma noE_lit_u suf x y z n : suf = String x (String y z) -> (x <> """"%char \/ z <> "") ->
+  noE [lit_u suf n] = true.
+Proof. intros Hs Hx. cbn [noE forallb]. unfold lit_u. rewrite (lit_ne_E _ suf x y z Hs Hx). reflexivity. Qed.
+
+Lemma noE_lit_i suf x y z v : suf = String x (String y z) -> (x <> """"%char \/ z <> "") ->
+  noE (lit_i suf v) = true.
+Proof.
+  intros Hs Hx. unfold lit_i. destruct (v <? 0)%Z; cbn [noE forallb]; rewrite (lit_ne_E _ suf x y z Hs Hx); reflexivity.
+Qed.
+
+Lemma noE_lit_u8 n : noE [lit_u "u8" n] = true.
+Proof. apply (noE_lit_u "u8" "u"%char "8"%char "" n eq_refl). left. discriminate. Qed.
+
+Lemma lit_usize_ne_E n : String.eqb (lit_u "usize" n) empty_str_lit = false.
+Proof. unfold lit_u. apply (lit_ne_E _ "usize" "u"%char "s"%char "ize" eq_refl). left. discriminate. Qed.
+
+Lemma noE_u256 b : noE (u256_tokens b) = true.
+Proof.
+  unfold u256_tokens. rewrite !noE_app.
+  assert (K : noE (sep_by [","] (map (fun n => [lit_u "u8" n]) b)) = true).
+  { induction b as [|n b IH]; [reflexivity|]. destruct b as [|n2 b].
+    - apply noE_lit_u8.
+    - change (sep_by [","] (map (fun n => [lit_u "u8" n]) (n :: n2 :: b)))
+        with ([lit_u "u8" n] ++ [","] ++ sep_by [","] (map (fun n => [lit_u "u8" n]) (n2 :: b))).
+      rewrite !noE_app, IH, noE_lit_u8. reflexivity. }
+  rewrite K. reflexivity.
+Qed.
+
+Lemma prim_example_noE p : Sat (fun v => noE v = true) (prim_example p).
+Proof.
+  intros st v st' H.
+  destruct p; cbn [prim_example] in H; apply xbind_ok in H as (a & st1 & H1 & H);
+    apply xret_ok in H; subst v.
+  - destruct a; reflexivity.
+  - apply xchoose_unwrap_ok in H1. unfold example_chars in H1. cbn [In] in H1.
+    repeat (destruct H1 as [<-|H1]; [reflexivity|]). destruct H1.
+  - apply xchoose_unwrap_ok in H1. unfold example_strings in H1. cbn [In] in H1.
+    repeat (destruct H1 as [<-|H1]; [reflexivity|]). destruct H1.
+  - apply (noE_lit_u "u8" "u"%char "8"%char "" a eq_refl). left; discriminate.
+  - apply (noE_lit_u "u16" "u"%char "1"%char "6" a eq_refl). left; discriminate.
+  - apply (noE_lit_u "u32" "u"%char "3"%char "2" a eq_refl). left; discriminate.
+  - apply (noE_lit_u "u64" "u"%char "6"%char "4" a eq_refl). left; discriminate.
+  - apply (noE_lit_u "u128" "u"%char "1"%char "28" a eq_refl). left; discriminate.
+  - apply noE_u256.
+  - apply (noE_lit_i "i8" "i"%char "8"%char "" a eq_refl). left; discriminate.
+  - apply (noE_lit_i "i16" "i"%char "1"%char "6" a eq_refl). left; discriminate.
+  - apply (noE_lit_i "i32" "i"%char "3"%char "2" a eq_refl). left; discriminate.
+  - apply (noE_lit_i "i64" "i"%char "6"%char "4" a eq_refl). left; discriminate.
+  - apply (noE_lit_i "i128" "i"%char "1"%char "28" a eq_refl). left; discriminate.
+  - apply noE_u256.
+Qed.
+
+Section NoEmpty.
+  Variables (r : registry) (s : settings).
+  Hypothesis Hpaths : literal_paths_plainb r s = true.
+  Let Q (v : tokens) : Prop := noE v = true.
+
+  Lemma path_noE id t p : lookup r id = Some t -> path_omit_generics r s id = Ok p -> noE p = true.
+  Proof.
+    intros L Hp. pose proof (lookup_lt r id t L) as Hlt.
+    unfold literal_paths_plainb in Hpaths. rewrite forallb_forall in Hpaths.
+    assert (Hin : In id (ids_of r)).
+    { unfold ids_of. apply in_map_iff. exists (N.to_nat id). split; [apply N2Nat.id|]. apply in_seq. lia. }
+    specialize (Hpaths id Hin). rewrite Hp in Hpaths. exact Hpaths.
+  Qed.
+
+  Lemma wrap_noE f v : Q v -> Q (wrap_compact f v).
+  Proof.
+    unfold Q, wrap_compact. intros H. destruct (explicit_compact f); [|exact H].
+    rewrite !noE_app, H. reflexivity.
+  Qed.
+
+  Lemma format_ident_lex x st y st' : format_ident x st = XOk (y, st') -> y = x /\ ident_lexb x = true.
+  Proof.
+    unfold format_ident. destruct (ident_lexb x) eqn:E; [|discriminate].
+    intros H. apply xret_ok in H. split; [exact H|reflexivity].
+  Qed.
+
+  Lemma named_field_noE rec f : (forall j, Sat Q (rec j)) -> Sat Q (named_field rec f).
+  Proof.
+    intros Hrec st v st' H. unfold named_field in H. destruct (f_name f) as [n|]; [|discriminate].
+    apply xbind_ok in H as (id & st1 & Hid & H). apply format_ident_lex in Hid as [-> Hlex].
+    apply xbind_ok in H as (x & st2 & Hx & H). apply xret_ok in H. subst v.
+    pose proof (wrap_noE f x (Hrec _ _ _ _ Hx)) as Hw. unfold Q in *.
+    rewrite !noE_app, Hw. cbn [noE forallb]. rewrite (ident_ne_E n Hlex). reflexivity.
+  Qed.
+
+  Lemma unnamed_field_noE rec f : (forall j, Sat Q (rec j)) -> Sat Q (unnamed_field rec f).
+  Proof.
+    intros Hrec st v st' H. unfold unnamed_field in H.
+    apply xbind_ok in H as (x & st2 & Hx & H). apply xret_ok in H. subst v.
+    pose proof (wrap_noE f x (Hrec _ _ _ _ Hx)) as Hw. unfold Q in *.
+    rewrite !noE_app, Hw. reflexivity.
+  Qed.
+
+  Lemma Forall2_right {A B} (R : B -> Prop) (l : list A) (l' : list B) :
+    Forall2 (fun _ y => R y) l l' -> Forall R l'.
+  Proof. induction 1; constructor; assumption. Qed.
+
+  Lemma fields_example_noE rec fs u : (forall j, Sat Q (rec j)) -> Sat Q (fields_example rec fs u).
+  Proof.
+    intros Hrec st v st' H. unfold fields_example in H.
+    destruct (all_named fs), (all_unnamed fs).
+    - apply xret_ok in H. subst v. destruct u; reflexivity.
+    - apply xbind_ok in H as (l & st1 & Hl & H). apply xret_ok in H. subst v.
+      apply (xmmapM_ok (fun _ y => Q y)) in Hl; [|intros x _; apply named_field_noE; exact Hrec].
+      apply Forall2_right in Hl. apply noE_concat in Hl. unfold Q. rewrite !noE_app, Hl.
+      destruct u; reflexivity.
+    - apply xbind_ok in H as (l & st1 & Hl & H). apply xret_ok in H. subst v.
+      apply (xmmapM_ok (fun _ y => Q y)) in Hl; [|intros x _; apply unnamed_field_noE; exact Hrec].
+      apply Forall2_right in Hl. apply noE_concat in Hl. unfold Q. rewrite !noE_app, Hl.
+      destruct u; reflexivity.
+    - discriminate H.
+  Qed.
+
+  Lemma copies_noE x : Q x -> forall len, Q (copies len x).
+  Proof.
+    intros Hx len. unfold copies. rewrite N2Nat.inj_iter. generalize (N.to_nat len). intros k.
+    induction k as [|k IH]; [reflexivity|]. destruct k as [|k'].
+    - cbn. unfold Q in Hx. exact Hx.
+    - change (Nat.iter (S (S k')) (fun acc => x :: acc) [])
+        with (x :: Nat.iter (S k') (fun acc => x :: acc) []).
+      change (Nat.iter (S k') (fun acc => x :: acc) [])
+        with (x :: Nat.iter k' (fun acc => x :: acc) []) in *.
+      cbn [sep_by] in *. unfold Q in *. rewrite !noE_app, Hx. exact IH.
+  Qed.
+
+  Lemma flat_noE : forall l, Forall Q l -> Q (flat_map (fun v => v ++ [","]) l).
+  Proof.
+    induction 1 as [|v l Hv _ IH]; [reflexivity|]. cbn [flat_map]. unfold Q in *.
+    rewrite !noE_app, Hv, IH. reflexivity.
+  Qed.
+
+  Lemma ty_go_noE (rec : N -> M tokens) :
+    (forall j, Sat Q (rec j)) ->
+    forall fi id t, lookup r id = Some t -> Sat Q (ty_go r s rec fi id t).
+  Proof.
+    intros Hrec. induction fi as [|fi IH]; intros id t L st v st' H; [discriminate|].
+    cbn [ty_go] in H. destruct (t_def t) eqn:D.
+    - destruct (cow_inner t) as [inner|] eqn:Ec; unfold cow_inner in Ec; rewrite Ec in H.
+      { eapply Hrec; eauto. }
+      apply xbind_ok in H as (p & st1 & Hp & H). apply xlift_ok in Hp.
+      apply xbind_ok in H as (u & st2 & Hu & H).
+      apply xbind_ok in H as (f & st3 & Hf & H). apply xret_ok in H. subst v.
+      apply (fields_example_noE rec fs u Hrec) in Hf. unfold Q in *.
+      rewrite noE_app, (path_noE id t p L Hp), Hf. reflexivity.
+    - apply xbind_ok in H as (p & st1 & Hp & H). apply xlift_ok in Hp.
+      apply xbind_ok in H as (o & st2 & Ho & H).
+      destruct o as [vr|]; [|discriminate].
+      apply xbind_ok in H as (vi & st3 & Hvi & H). apply format_ident_lex in Hvi as [-> Hlex].
+      apply xbind_ok in H as (f & st4 & Hf & H). apply xret_ok in H.
+      apply (fields_example_noE rec (v_fields vr) false Hrec) in Hf. unfold Q in *.
+      destruct (list_eqb String.eqb (p ++ [":"; ":"; v_name vr] ++ f) ["Option"; ":"; ":"; "None"]%string);
+        subst v; [reflexivity|].
+      rewrite !noE_app, (path_noE id t p L Hp), Hf. cbn [noE forallb].
+      rewrite (ident_ne_E _ Hlex). reflexivity.
+    - apply xbind_ok in H as (te & st1 & Hte & H). unfold resolve_type_m in Hte.
+      destruct (lookup r t0) as [te'|] eqn:Le; [|discriminate]. apply xret_ok in Hte. subst te'.
+      apply xbind_ok in H as (a & st2 & Ha & H). apply xbind_ok in H as (b & st3 & Hb & H).
+      apply xret_ok in H. subst v.
+      pose proof (IH t0 te Le _ _ _ Ha) as HA. pose proof (IH t0 te Le _ _ _ Hb) as HB. unfold Q in *.
+      rewrite !noE_app, HA, HB. reflexivity.
+    - apply xbind_ok in H as (te & st1 & Hte & H). unfold resolve_type_m in Hte.
+      destruct (lookup r t0) as [te'|] eqn:Le; [|discriminate]. apply xret_ok in Hte. subst te'.
+      apply xbind_ok in H as (item & st2 & Hitem & H). apply xbind_ok in H as (cp & st3 & Hcp & H).
+      apply xret_ok in H. subst v.
+      pose proof (IH t0 te Le _ _ _ Hitem) as HI.
+      destruct cp; unfold Q in *; rewrite !noE_app.
+      + rewrite HI. cbn [noE forallb]. rewrite lit_usize_ne_E. reflexivity.
+      + rewrite (copies_noE item HI len). reflexivity.
+    - apply xbind_ok in H as (l & st1 & Hl & H). apply xret_ok in H. subst v.
+      apply (xmmapM_ok (fun _ y => Q y)) in Hl; [|intros j _; apply Hrec].
+      apply Forall2_right in Hl. apply flat_noE in Hl. unfold Q in *. rewrite !noE_app, Hl. reflexivity.
+    - eapply prim_example_noE; eauto.
+    - eapply Hrec; eauto.
+    - apply xret_ok in H. subst v. reflexivity.
+  Qed.
+
+  Lemma resolve_go_noE : forall fo id, Sat Q (resolve_go r s fo id).
+  Proof.
+    induction fo as [|fo IH]; intros id st v st' H; [discriminate|].
+    cbn [resolve_go] in H. destruct (lookup r id) as [t|] eqn:L; [|discriminate].
+    assert (K : forall st1, match ty_go r s (resolve_go r s fo) (inner_fuel r) id t st1 with
+                            | XOk (v0, s') => XOk (v0, (cache_set id (CComputed v0) (fst s'), snd s'))
+                            | XErr e => XErr e
+                            | XPanic msg => XPanic msg
+                            end = XOk (v, st') -> Q v).
+    { intros st1 K. destruct (ty_go r s (resolve_go r s fo) (inner_fuel r) id t st1) as [[v0 s']|e|msg] eqn:E;
+        try discriminate. inversion K; subst. eapply ty_go_noE; eauto. }
+    destruct (cache_get (fst st) id) as [[|v0]|]; [discriminate| |]; eapply K; exact H.
+  Qed.
+
+  Theorem example_no_empty_lit id ws ts : example_rust r s id ws = XOk ts -> ~ In empty_str_lit ts.
+  Proof.
+    unfold example_rust, example_run. intros H.
+    destruct (resolve_go r s (outer_fuel r) id ([], ws)) as [[v st']|e|msg] eqn:E; try discriminate.
+    inversion H; subst. apply noE_In. exact (resolve_go_noE _ _ _ _ _ E).
+  Qed.
+End NoEmpty.
+
+(** every Ok example of the model is accepted by the token-level reader: no condition on the tokens *)
+Theorem conforms_tokens_full (r : registry) (s : settings) (teq : N -> N -> result bool) (m : items) (toks : tokens) :
+  generate r s teq = Ok m -> skeleton_consistent r s -> reader_scopeb r s m = true ->
+  literal_paths_plainb r s = true ->
+  items_plain s m = true -> emit_module s m = Ok toks ->
+  forall (id : N) (ws : words) (ts : tokens),
+    example_rust r s id ws = XOk ts ->
+    conformsb r (s_root s) (parse_module toks) (model_paths r s) id ts = true.
+Proof.
+  intros Hg Hsk Hsc Hlp Hp He id ws ts Hx.
+  exact (conforms_tokens r s teq m toks Hg Hsk Hsc Hp He id ws ts Hx (example_no_empty_lit r s Hlp id ws ts Hx)).
+Qed.
